@@ -141,3 +141,11 @@ def prefix_typed(type: str, s: str, key: str) -> bool:
     if not sid:
         return True
     return bool(sid.get_as(key)) or fail("prefix-of-typed-sid-is-untyped")
+
+
+def same_getter_instance(types, n: int) -> bool:
+    from spil import Sid, conf
+
+    gs = [conf.get_getter_for(Sid(T + ":" + "/".join(["*"] * n))) for T in types]
+    gs = [g for g in gs if g is not None]
+    return all(g is gs[0] for g in gs) or fail("different-getter-instances-for-sibling-types")
